@@ -81,3 +81,24 @@ theorem gen_total_size (key : Option Bytes) (p : Packet) :
   cases hk : keyed key <;> cases hp : p.hdr.ptype <;> simp [PType.toNat] <;> omega
 
 end Mpgs.Equiv
+
+namespace Mpgs.Equiv
+open Mpgs Mpgs.Bytes Mpgs.Wire
+
+/-- the condition under which `Packet.to_bytes` seals (cut out of the source: the test of the `if` whose body calls
+    `crypto.encrypt_gcm`) is the one the model's `toBytes` branches on: a non-empty key and any type but SERVER_HELLO -/
+theorem gen_to_bytes_seals (key : Option Bytes) (p : Packet) :
+    Gen.Packet_to_bytes_seals (keyed key).isSome p.hdr.ptype.toNat =
+      .ok ((keyed key).isSome && (p.hdr.ptype != .serverHello)) := by
+  unfold Gen.Packet_to_bytes_seals
+  cases hk : keyed key <;> cases hp : p.hdr.ptype <;> simp [PType.toNat]
+
+/-- the condition under which `Packet.from_bytes` demands that the datagram opens under the key (the test of the `if` whose body
+    calls `crypto.decrypt_gcm`) is "a non-empty key is set" and nothing else: it does not depend on the packet type, as in the
+    model's `openBody` - no type bypasses authentication -/
+theorem gen_from_bytes_opens (key : Option Bytes) (ty : Int) :
+    Gen.Packet_from_bytes_opens (keyed key).isSome ty = .ok (keyed key).isSome := by
+  unfold Gen.Packet_from_bytes_opens
+  cases keyed key <;> rfl
+
+end Mpgs.Equiv
